@@ -161,7 +161,11 @@ class Server:
         finally:
             current.status = "dead"
             # self.log("-disconnect: %s" % (clientid,))
-            sock.close()
-            if sock_file is not None:
-                sock_file.close()
-            handle_request.shutdown()
+            try:
+                sock.close()
+                if sock_file is not None:
+                    # flushes what a failed write left in the buffer and may fail again
+                    sock_file.close()
+            finally:
+                # re-queues the jobs this connection was running
+                handle_request.shutdown()
